@@ -188,6 +188,14 @@ Definition index_ts_key (index : bytes) : bytes :=
 Definition index_req_ts (x : ts_ext) (e : event) (index : bytes) (tsNow clock : N) (prev : N) : N :=
   let t := extract_ts x e (index_ts_key index) clock in if t =? 0 then tsNow else t.
 
+(* AddAndGetRealIndexName: a requested name that is an alias stands for the index it points to
+   (aliases of one index; the key of the event time is decided by the REAL index) *)
+Fixpoint real_index (al : list (bytes * bytes)) (name : bytes) : bytes :=
+  match al with
+  | [] => name
+  | (a, ix) :: r => if bytes_eqb a name then ix else real_index r name
+  end.
+
 Definition final_ts (x : ts_ext) (e : event) (index : bytes) (dec : option N) (now0 tsNow clock : N) : N :=
   index_req_ts x e index tsNow clock (decoder_set dec (ple_new x e k_timestamp now0 clock)).
 
